@@ -547,11 +547,13 @@ class C07C18Script(Monitor):
         if bool(ro.get("verbose")) != bool(p.get("verbose")):
             self.bad("wrong_run_options", "batch runs with another group's run options",
                      f"batch {n} (group {gname}): verbose {ro.get('verbose')}")
-        # blocked-job rule
-        if sub.epoch == 0:
+        # blocked-job rule (in a resubmission epoch: for the blockers that are being rerun themselves)
+        if True:
             have = None
             for j in jobs:
                 bs = sc.blockers.get(j, [])
+                if sub.epoch > 0:
+                    bs = [b for b in bs if b in sub.rerun_names]
                 if not bs:
                     continue
                 if have is None:
@@ -587,6 +589,9 @@ class C07C18Script(Monitor):
             diff = {k: (got[k], exp[k]) for k in got if k in exp and got[k] != exp[k]}
             self.bad("script_options", "submission script options differ from the configuration",
                      f"batch {n}: unexpected={extra} missing={miss} different={diff}", "C18")
+        if d.get("run_lines", 1) != 1:
+            self.bad("run_script_content", "the batch's run script does not run exactly this batch",
+                     f"batch {n}: {d.get('run_lines')} run-jobs command lines in {d.get('run_script')}", "C18")
         rs = d.get("run_script")
         if rs != f"{sub.outrel}/run_batch_{n}.sh":
             self.bad("script_target", "submission script does not run the batch's run script",
